@@ -348,8 +348,11 @@ def check_property(prop: str, tier: str, seed: int, level: str = "proof") -> int
         "wall_s": round(time.time() - t0, 2),
         "violations": n_viol,
     }
-    os.makedirs(os.path.join(ROOT, "evidence"), exist_ok=True)
-    with open(os.path.join(ROOT, "evidence", f"{prop}.json"), "w") as f:
+    # evidence under /verif/evidence always describes /repo itself: runs pointed at a scratch checkout write next to that checkout
+    alt = os.environ.get("VERIF_REPO")
+    evdir = os.path.join(ROOT, "evidence") if not alt or os.path.realpath(alt) == "/repo" else os.path.join(alt, ".verif-evidence")
+    os.makedirs(evdir, exist_ok=True)
+    with open(os.path.join(evdir, f"{prop}.json"), "w") as f:
         json.dump(ev, f, indent=1, default=str)
     _validate(ev)
     for ln in lines:
